@@ -108,13 +108,22 @@ where
         }
 
         let is_component = self.is_component(&jsx_element.opening.name);
+        // `KeepAlive` and `Fragment` keep their children as they are, but their vnodes are
+        // not element vnodes
+        let is_element =
+            !is_component && !self.is_keep_alive_or_fragment(&jsx_element.opening.name);
         let mut directives = vec![];
         let AttrsTransformationResult {
             attrs,
             patch_flags,
             dynamic_props,
             slots,
-        } = self.transform_attrs(&jsx_element.opening.attrs, is_component, &mut directives);
+        } = self.transform_attrs(
+            &jsx_element.opening.attrs,
+            is_component,
+            is_element,
+            &mut directives,
+        );
         let mut vnode_call_args = vec![
             ExprOrSpread {
                 spread: None,
@@ -305,6 +314,7 @@ where
         &mut self,
         attrs: &'a [JSXAttrOrSpread],
         is_component: bool,
+        is_element: bool,
         directives: &mut Vec<NormalDirective>,
     ) -> AttrsTransformationResult<'a> {
         let mut slots = None;
@@ -594,7 +604,7 @@ where
                             .map(util::is_jsx_attr_value_constant)
                             .unwrap_or_default()
                         {
-                            if !is_component && util::is_on(&attr_name)
+                            if is_element && util::is_on(&attr_name)
                                 // omit the flag for click handlers becaues hydration gives click
                                 // dedicated fast path.
                                 && !attr_name.eq_ignore_ascii_case("onclick")
@@ -604,8 +614,9 @@ where
                                 has_hydration_event_binding = true;
                             }
                             match &*attr_name {
-                                "class" if !is_component => has_class_binding = true,
-                                "style" if !is_component => has_style_binding = true,
+                                // (the class / style bits are only looked at on elements)
+                                "class" if is_element => has_class_binding = true,
+                                "style" if is_element => has_style_binding = true,
                                 "key" | "ref" => {}
                                 // turned into listeners with keys only known at runtime (the
                                 // vnode gets FULL_PROPS); without `transformOn` they are ordinary props
@@ -1109,11 +1120,12 @@ where
         }
     }
 
-    fn is_component(&self, element_name: &JSXElementName) -> bool {
+    fn is_keep_alive_or_fragment(&self, element_name: &JSXElementName) -> bool {
         let name = match element_name {
             JSXElementName::Ident(Ident { sym, .. }) => sym,
             JSXElementName::JSXMemberExpr(JSXMemberExpr { prop, .. }) => &*prop.sym,
-            JSXElementName::JSXNamespacedName(JSXNamespacedName { name, .. }) => &*name.sym,
+            // `<ns:tag>` is lowered to the string tag "ns:tag"
+            JSXElementName::JSXNamespacedName(..) => return false,
         };
         // `Fragment`, `_Fragment`, `_Fragment1`, ... (same rule as the official plugin); this
         // must not depend on whether a fragment has been transformed before
@@ -1122,7 +1134,16 @@ where
             .unwrap_or(name)
             .strip_prefix(FRAGMENT)
             .is_some_and(|rest| rest.bytes().all(|b| b.is_ascii_digit()));
-        let should_transformed_to_slots = !is_fragment && name != KEEP_ALIVE;
+        is_fragment || name == KEEP_ALIVE
+    }
+
+    fn is_component(&self, element_name: &JSXElementName) -> bool {
+        let name = match element_name {
+            JSXElementName::Ident(Ident { sym, .. }) => sym,
+            JSXElementName::JSXMemberExpr(JSXMemberExpr { prop, .. }) => &*prop.sym,
+            JSXElementName::JSXNamespacedName(JSXNamespacedName { name, .. }) => &*name.sym,
+        };
+        let should_transformed_to_slots = !self.is_keep_alive_or_fragment(element_name);
 
         if matches!(element_name, JSXElementName::JSXMemberExpr(..)) {
             should_transformed_to_slots
